@@ -53,29 +53,49 @@ func (c *Core) TriggerAt(n int, fn func()) {
 }
 
 func (c *Core) Seq() int {
+	if c == nil {
+		return 0
+	}
 	c.mu.Lock()
 	defer c.mu.Unlock()
 	return c.seq
 }
 func (c *Core) Overruns() int {
+	if c == nil {
+		return 0
+	}
 	c.mu.Lock()
 	defer c.mu.Unlock()
 	return c.overruns
 }
 func (c *Core) Signature() uint64 {
+	if c == nil {
+		return 0
+	}
 	c.mu.Lock()
 	defer c.mu.Unlock()
 	return c.sig
 }
 func (c *Core) TriggerPoint() string {
+	if c == nil {
+		return ""
+	}
 	c.mu.Lock()
 	defer c.mu.Unlock()
 	return c.trigPt
 }
-func (c *Core) Injected() time.Duration { return time.Duration(c.injected.Load()) }
+func (c *Core) Injected() time.Duration {
+	if c == nil {
+		return 0
+	}
+	return time.Duration(c.injected.Load())
+}
 
 // Points returns the perturbation points hit, sorted.
 func (c *Core) Points() []string {
+	if c == nil {
+		return nil
+	}
 	c.mu.Lock()
 	defer c.mu.Unlock()
 	out := make([]string, 0, len(c.points))
@@ -86,6 +106,9 @@ func (c *Core) Points() []string {
 	return out
 }
 func (c *Core) PointCount(sub string) int {
+	if c == nil {
+		return 0
+	}
 	c.mu.Lock()
 	defer c.mu.Unlock()
 	n := 0
@@ -152,6 +175,10 @@ func (c *Core) Point(pt string) {
 
 // Sleep is an injected virtual sleep that the barrier knows about.
 func (c *Core) Sleep(d time.Duration) {
+	if c == nil {
+		time.Sleep(d)
+		return
+	}
 	c.sleepers.Add(1)
 	c.injected.Add(int64(d))
 	time.Sleep(d)
@@ -198,6 +225,11 @@ func (l *Log) WithComponent(name string) logutil.Log {
 }
 
 func (l *Log) pt(level, format string) {
+	if l.core == nil {
+		// race mode: no shared state at all
+		runtime.Gosched()
+		return
+	}
 	if strings.Contains(format, "overrun") || strings.Contains(format, "buffer full") {
 		l.core.noteOverrun(l.comp + ": " + format)
 	}
